@@ -77,6 +77,13 @@ def generate(rng, tier):
             stale = not inplace and rng.random() < 0.7
     if mode == "close":
         ops.append({"t": t_w, "op": "close", "h": "R"})
+        if len(svcs) > 1 and t_ready < t_w - 0.3 and rng.random() < 0.3:
+            # components withdraw their own services shortly before the application closes the instance: the shutdown
+            # has to let every goodbye sequence that is going out finish (unregistering *after* the close was requested
+            # is C17's subject)
+            for k2 in rng.sample(range(len(svcs)), rng.choice([1, min(2, len(svcs))])):
+                ops.append({"t": round(t_w + rng.choice([-0.2, -0.13, -0.05, -0.001]), 6),
+                            "op": "unregister", "h": "R", "name": svcs[k2]["name"]})
     else:
         ops.append({"t": t_w, "op": "unregister", "h": "R", "name": svcs[victim]["name"], "stale": stale})
         if rng.random() < 0.2:
